@@ -155,7 +155,8 @@ def corrmtx(x_input, m, method='autocorrelation'):
         x = x_input.copy()
 
 
-    if x.dtype == complex:
+    # any complex dtype (complex64 included), not only complex128
+    if numpy.iscomplexobj(x):
         complex_type = True
     else:
         complex_type = False
